@@ -867,7 +867,8 @@ impl Entities {
     /// Same semantics as `b in a` in the Cedar language
     pub fn is_ancestor_of(&self, a: &EntityUid, b: &EntityUid) -> bool {
         match self.0.entity(b.as_ref()) {
-            Dereference::Data(b) => b.is_descendant_of(a.as_ref()),
+            // `b in a` is reflexive: it holds when `b == a`, whether or not `b` exists
+            Dereference::Data(b_entity) => a == b || b_entity.is_descendant_of(a.as_ref()),
             _ => a == b, // if b doesn't exist, `b in a` is only true if `b == a`
         }
     }
